@@ -136,9 +136,9 @@ func cmdCheck(args []string) int {
 	if cfg.Exec != "" {
 		return runExecCheck(id, cfg, *tier, seed, t0)
 	}
-	timeout := 12
+	timeout := 24
 	if *tier == "thorough" {
-		timeout = 60
+		timeout = 90
 	}
 	g, err := LoadGen(repoDir, verifDir, cfg.Patterns, nil)
 	if err != nil {
@@ -186,7 +186,7 @@ func cmdCheck(args []string) int {
 	dir, _ := os.MkdirTemp("", "pvc-"+id)
 	defer os.RemoveAll(dir)
 	filter := func(o *Obl) bool { return tagged(o.Tags, id) }
-	res := runObligations(fts, dir, timeout, filter, 5)
+	res := runObligations(fts, dir, timeout, filter, 4)
 	// vacuity covers
 	vac := runCovers(fts, dir)
 	ledger := loadLedger(id)
